@@ -67,6 +67,10 @@ def classify(ctx, c):
     return 'binary'
 
 
+# length fields whose composer side is a formula decided by another rule (SSH padding: C07.R2/R3 tabulate it)
+LINKS_DECIDED_ELSEWHERE = {'length link of padding_length'}
+
+
 def check(ctx, report):
     model = ctx.model
     reviewed = load_json('reviewed.json').get('C01.R1', {})
@@ -93,6 +97,13 @@ def check(ctx, report):
             report.count('C01.R1', 1, nontrivial=1 if n_el >= 2 else 0)
             report.count('C01.R2', sum(1 for a, b in cmpn.pairs if a.key is not None and b.val is not None))
             for u in cmpn.unknown:
+                if u.startswith('length link of ') and 'composer value' in u and u.split(':')[0] not in LINKS_DECIDED_ELSEWHERE:
+                    # the parser takes this field as the size of what follows, the composer writes something that is not derived
+                    # from the size of what it composes (a cached or stored number): not a pass, the two can drift apart
+                    report.add('C01.R1', '%s@link[%s]' % (cons, u.split(':')[0][len('length link of '):]),
+                               'the parser uses this field as the length of the data after it, but the composer does not derive the '
+                               'value from the size of the data it writes (%s)' % u.split(':', 1)[1].strip()[:120])
+                    continue
                 report.undecided.append('%s: %s' % (c.name, u))
             keys = sorted(diff_key(d) for d in cmpn.diffs)
             if c.name in reviewed:
